@@ -279,10 +279,22 @@ theorem init_goes_through (cfg : Cfg) (l : List ProfileDef) (hnd : (l.map (·.na
     (hf : (bulkEnv cfg.base l).length + 1 ≤ cfg.fuel) : (init cfg l).2 = none :=
   init_ok_of_checks cfg l hnd hac hcl hpc hf
 
+/-- `Profiles()` goes through, from what the properties reach only: distinct names, and every macro a property uses is
+defined, with everything it uses in turn, within the fuel -/
+theorem init_goes_through_reach (cfg : Cfg) (l : List ProfileDef) (hnd : (l.map (·.name)).Nodup)
+    (hpd : ∀ d ∈ l, propsDeepB (bulkEnv cfg.base l) cfg.fuel d.props = true) : (init cfg l).2 = none :=
+  init_ok_of_deep cfg l hnd hpd
+
+/-- a value all of whose macros are defined to depth `f` (so that no cycle is on the way) expands within `f` passes to
+a text without placeholders — whatever the rest of the macro set looks like -/
+theorem expand_total_reach (m : Dict Str) (f : Nat) (v : Str) (hd : ∀ n ∈ phNames v, definedDeep m f n = true) :
+    ∃ r, expandValue m f v = .ok r ∧ hasPh r = false :=
+  expandValue_total_deep m f v hd
+
 /-! ### the built-in tables (`Gen/C14Profiles.lean`, regenerated from `cssutils/profiles.py` on every run)
 
-Evaluated by the kernel on the regenerated tables, in pieces: a cycle among the built-in macros, an undefined macro
-in a built-in body or property, or a repeated profile name in `__init__` breaks the build. -/
+Evaluated by the kernel on the regenerated tables, in pieces: a cycle among the built-in macros, a built-in property that
+reaches an undefined macro, or a repeated profile name in `__init__` breaks the build. -/
 
 /-- the macro environment of `Profiles()` is the literal table the translator computed with Python dicts -/
 theorem builtin_env : bulkEnv Gen.C14.base Gen.C14.builtins = Gen.C14.envLit := by decide +kernel
@@ -292,31 +304,21 @@ set_option maxRecDepth 100000 in
 theorem builtin_acyclic : acyclicB Gen.C14.envLit = true := by decide +kernel
 
 set_option maxRecDepth 100000 in
-/-- every macro used by a built-in macro is defined -/
-theorem builtin_closed : closedB Gen.C14.envLit = true := by decide +kernel
-
-set_option maxRecDepth 100000 in
-/-- every macro used by a built-in property is defined -/
-theorem builtin_props_closed : Gen.C14.builtins.all (fun d => propsClosedB Gen.C14.envLit d.props) = true := by
+/-- every macro a built-in property uses is defined, and so is every macro that one uses, and so on down (nothing
+is asked of a built-in macro that no built-in property reaches) -/
+theorem builtin_props_defined :
+    Gen.C14.builtins.all (fun d => propsDeepB Gen.C14.envLit Gen.C14.cfg.fuel d.props) = true := by
   decide +kernel
 
 theorem builtin_names_nodup : (Gen.C14.builtins.map (·.name)).Nodup := by decide +kernel
 
-theorem builtin_fuel : Gen.C14.envLit.length + 1 ≤ Gen.C14.cfg.fuel := by decide +kernel
-
 /-- **`Profiles()` does not raise and does not hang** (the registry the driver starts from) -/
 theorem builtin_init_ok : (init Gen.C14.cfg Gen.C14.builtins).2 = none := by
-  apply init_ok_of_checks Gen.C14.cfg Gen.C14.builtins builtin_names_nodup
-  · show acyclicB (bulkEnv Gen.C14.base Gen.C14.builtins) = true
-    rw [builtin_env]; exact builtin_acyclic
-  · show closedB (bulkEnv Gen.C14.base Gen.C14.builtins) = true
-    rw [builtin_env]; exact builtin_closed
-  · intro d hd
-    show propsClosedB (bulkEnv Gen.C14.base Gen.C14.builtins) d.props = true
-    rw [builtin_env]
-    exact List.all_eq_true.mp builtin_props_closed d hd
-  · show (bulkEnv Gen.C14.base Gen.C14.builtins).length + 1 ≤ Gen.C14.cfg.fuel
-    rw [builtin_env]; exact builtin_fuel
+  apply init_ok_of_deep Gen.C14.cfg Gen.C14.builtins builtin_names_nodup
+  intro d hd
+  show propsDeepB (bulkEnv Gen.C14.base Gen.C14.builtins) Gen.C14.cfg.fuel d.props = true
+  rw [builtin_env]
+  exact List.all_eq_true.mp builtin_props_defined d hd
 
 /-- and registers exactly the nine tables, in order (`init_contents` with its premises discharged) -/
 theorem builtin_init_contents :
@@ -409,6 +411,11 @@ example : acyclicB [([97], [123, 98, 125, 120]), ([98], [121])] = true ∧
 
 example : RankedBy (rankFn [([97], [123, 98, 125, 120]), ([98], [121])]) [([97], [123, 98, 125, 120]), ([98], [121])] :=
   acyclicB_ranked _ (by decide)
+
+/-- the premise of `expand_total_reach` holds for `{a}` under the macros above with depth 2, and fails with depth 1 -/
+example : (∀ n ∈ phNames [123, 97, 125], definedDeep [([97], [123, 98, 125, 120]), ([98], [121])] 2 n = true) ∧
+    definedDeep [([97], [123, 98, 125, 120]), ([98], [121])] 1 [97] = false := by
+  decide
 
 /-- `pass_placeholders` / `pass_lowers_depth` have instances: one pass over `{a}` under the macros above -/
 example : subPass [([97], [123, 98, 125, 120]), ([98], [121])] [123, 97, 125] = .ok [40, 63, 58, 123, 98, 125, 120, 41] ∧
